@@ -71,7 +71,16 @@ func WithData(data json.RawMessage) schema.Option {
 func WithStamps(stamps []*head.Stamp) schema.Option {
 	return func(o interface{}) {
 		opts := o.(*CorrectionOptions)
-		opts.Stamps = stamps
+		// copy, never share the stamps with the caller: raw option data is
+		// decoded into them and the corrected document keeps them
+		opts.Stamps = make([]*head.Stamp, 0, len(stamps))
+		for _, s := range stamps {
+			if s == nil {
+				continue
+			}
+			cs := *s
+			opts.Stamps = append(opts.Stamps, &cs)
+		}
 	}
 }
 
@@ -108,7 +117,8 @@ func WithExtension(key cbc.Key, code cbc.Code) schema.Option {
 func WithIssueDate(date cal.Date) schema.Option {
 	return func(o interface{}) {
 		opts := o.(*CorrectionOptions)
-		opts.IssueDate = &date
+		d := date // raw option data is decoded into the options: not into the option's own date
+		opts.IssueDate = &d
 	}
 }
 
